@@ -1,0 +1,26 @@
+//go:build verif
+
+package runtime
+
+// verification hook (build tag `verif`): read-only accessors exposing the scope depth
+// and the number of live symbols of every module, and the raw call-stack length.
+
+// VerifScopeStat - snapshot of one module's symbol table
+type VerifScopeStat struct {
+	Depth       int
+	LiveSymbols int
+}
+
+// VerifScopeStats - moduleID -> snapshot
+func (vm *VM) VerifScopeStats() map[int]VerifScopeStat {
+	res := map[int]VerifScopeStat{}
+	for id, sp := range vm.valueStack {
+		res[id] = VerifScopeStat{Depth: sp.currentDepth, LiveSymbols: sp.localCount}
+	}
+	return res
+}
+
+// VerifCallDepth - number of frames currently on the call stack
+func (vm *VM) VerifCallDepth() int {
+	return vm.csCount
+}
